@@ -749,7 +749,13 @@ func sortedMemberIDs(ams []tsstypes.AssignedMember) []uint64 {
 // satisfied when state was written may be exceeded by existing state afterwards.
 type TSSParamChurn struct {
 	Rate    int
+	Edges   bool // also propose values at the 2^31 / 2^32 / 2^62 / 2^63 / 2^64 boundaries (proposed only if parameter validation accepts them)
 	aimedAt map[uint64]bool
+}
+
+// edgeU64 draws one of the boundary values of unsigned 64-bit parameters.
+func edgeU64(e *Env, label string) uint64 {
+	return []uint64{1<<31 - 1, 1 << 32, 1 << 62, 1<<63 - 1, 1 << 63, 1<<64 - 1}[e.Ch.Weighted(label, []int{1, 1, 1, 2, 2, 4})]
 }
 
 func (p *TSSParamChurn) OnBlock(e *Env, blk *world.BlockRecord) {}
@@ -812,8 +818,17 @@ func (p *TSSParamChurn) Act(e *Env) {
 		np.MaxDESize = uint64(e.Ch.Range("tss.churn.maxde", 1, 10))
 	case 1:
 		np.SigningPeriod = uint64(e.Ch.Range("tss.churn.period", 1, 8))
+		if p.Edges && e.Ch.Bool("tss.churn.period.edge", 400) {
+			np.SigningPeriod = edgeU64(e, "tss.churn.period.edgev")
+			e.St.Fault("signing_period_set_to_an_edge_value")
+		}
 	case 2:
 		np.MaxSigningAttempt = uint64(e.Ch.Range("tss.churn.attempt", 1, 4))
+		if p.Edges && e.Ch.Bool("tss.churn.attempt.edge", 250) {
+			np.MaxSigningAttempt = edgeU64(e, "tss.churn.attempt.edgev")
+			e.St.Fault("max_signing_attempt_set_to_an_edge_value")
+			break
+		}
 		// aimed: put the limit just below / at / just above the attempt number of a signing that is in flight
 		tk := e.App().TSSKeeper
 		cnt := tk.GetSigningCount(e.Ctx())
